@@ -331,11 +331,17 @@ def run_rational(rng, obs):
     elif form == 'quot': line = '%s*%s/%s %s %s' % (fmt(c), names[i], names[j], cmp, fmt(d))
     elif form == 'recip': line = '%s/%s %s %s*%s' % (fmt(d), names[j], cmp, fmt(c), names[i])
     else: line = '%s*%s*%s %s %s' % (fmt(c), names[i], names[j], cmp, fmt(d))
+    # the same relation spelled with blanks around the operators (x0 / x1, x0 * x1): spelling does not change the solution set
+    sp = rng.choice(['tight', 'tight', 'spaced', 'after', 'before'])
+    if sp != 'tight':
+        a_, b_ = {'spaced': (' ', ' '), 'after': ('', ' '), 'before': (' ', '')}[sp]
+        lhs_, cmp_, rhs_ = T.split(line)
+        line = '%s %s %s' % (lhs_.replace('/', a_ + '/' + b_).replace('*', a_ + '*' + b_), cmp_, rhs_.replace('/', a_ + '/' + b_).replace('*', a_ + '*' + b_))
     text = line
     if rng.random() < 0.4:
         k = rng.randrange(n)
         text += '\n%s %s %s' % (names[k], rng.choice(['<=', '>=']), fmt(rng.choice([3.0, -1.0, 0.0])))
-    obs.desc = {'text': text, 'variables': variables if isinstance(variables, str) else names, 'form': form}
+    obs.desc = {'text': text, 'variables': variables if isinstance(variables, str) else names, 'form': form, 'spelling': sp}
     if rng.random() < 0.5:
         single_case_first(obs, rng, text, variables, names, [[sc_ * rng.gauss(0, 2) for _ in range(n)] for sc_ in (1.0, 1.0, 5.0, 0.2) for _ in range(40)])
     try:
